@@ -5,6 +5,7 @@ package interp
 // decision prefix.
 
 import (
+	"os"
 	"fmt"
 	"math/big"
 	"sort"
@@ -208,6 +209,16 @@ func (m *Machine) decideN(conds []*Term) int {
 		case Unknown:
 			m.hasUnknown = true
 			m.ex.noteUnknown("feasibility")
+			if p := os.Getenv("SYMGO_UNKNOWN_DUMP"); p != "" {
+				if f, err := os.OpenFile(p, os.O_CREATE|os.O_APPEND|os.O_WRONLY, 0o644); err == nil {
+					fmt.Fprintf(f, "; ---- unknown feasibility query\n")
+					for _, t := range m.pc {
+						fmt.Fprintf(f, "(assert %s)\n", t.String())
+					}
+					fmt.Fprintf(f, "(assert %s)\n(check-sat)\n", c.String())
+					f.Close()
+				}
+			}
 			feas = append(feas, i)
 		}
 	}
